@@ -473,3 +473,158 @@ func TestC20_Expo(t *testing.T) {
 	p := kit.Prop[C20Expo]{ID: "C20", Name: "Expo", Quick: 12000, Thorough: 600000, Gen: genC20Expo, Run: runC20Expo}
 	p.Execute(t)
 }
+
+// ---- several clients in one history: the label depends on the address alone, not on traffic history ----
+
+type byIPDB struct{}
+
+func byIPAnswer(ip net.IP) (string, int) {
+	sum := 0
+	for _, b := range ip.To16() {
+		sum += int(b)
+	}
+	return []string{"US", "BR", "IE", "IR", ""}[sum%5], sum % 3
+}
+
+func (byIPDB) GetIPInfo(ip net.IP) (ipinfo.IPInfo, error) {
+	cc, asn := byIPAnswer(ip)
+	return ipinfo.IPInfo{CountryCode: ipinfo.CountryCode(cc), ASN: ipinfo.ASN{Number: asn}}, nil
+}
+
+type C20MOp struct {
+	Client int    `json:"client"`
+	Kind   string `json:"kind"` // tcp | udp
+	Auth   bool   `json:"auth"`
+}
+
+type C20Multi struct {
+	Clients []string `json:"clients"`
+	Ops     []C20MOp `json:"ops"`
+}
+
+var c20MultiPool = []string{"8.8.8.8", "93.184.216.34", "1.1.1.1", "2001:4860:4860::8888", "2606:2800:220:1:248:1893:25c8:1946", "2a00:1450:4001:81b::200e", "2620:fe::fe",
+	"::ffff:151.101.1.69", "10.1.2.3", "127.0.0.1", "::1", "fe80::1234", "169.254.3.4", "fd12:3456::1"}
+
+func genC20Multi(t *rapid.T) C20Multi {
+	c := C20Multi{Clients: rapid.SliceOfNDistinct(rapid.SampledFrom(c20MultiPool), 2, 5, rapid.ID[string]).Draw(t, "clients")}
+	n := rapid.IntRange(2, 16).Draw(t, "nops")
+	for i := 0; i < n; i++ {
+		c.Ops = append(c.Ops, C20MOp{Client: rapid.IntRange(0, len(c.Clients)-1).Draw(t, "client"), Kind: rapid.SampledFrom([]string{"tcp", "tcp", "udp"}).Draw(t, "kind"), Auth: rapid.Bool().Draw(t, "auth")})
+	}
+	return c
+}
+
+func runC20Multi(c C20Multi, info *kit.Info) *kit.Finding {
+	sm, err := outline_prometheus.NewServiceMetrics(byIPDB{})
+	if err != nil {
+		return kit.Violation("expo:setup", "%v", err)
+	}
+	reg := prometheus.NewPedanticRegistry()
+	if err := reg.Register(sm); err != nil {
+		return kit.Violation("expo:setup", "%v", err)
+	}
+	label := func(ipStr string) string {
+		a := netip.MustParseAddr(ipStr)
+		if isNonGlobal(a) {
+			return `location="XL" asn=""`
+		}
+		cc, asn := byIPAnswer(net.ParseIP(ipStr))
+		if cc == "" {
+			cc = "ZZ"
+		}
+		as := ""
+		if asn != 0 {
+			as = strconv.Itoa(asn)
+		}
+		return fmt.Sprintf("location=%q asn=%q", cc, as)
+	}
+	wantOpened, wantPkts, wantTunnel := map[string]float64{}, map[string]float64{}, map[string]bool{}
+	v6global := map[string]bool{}
+	for i, op := range c.Ops {
+		ipStr := c.Clients[op.Client]
+		ip := net.ParseIP(ipStr)
+		l := label(ipStr)
+		if a := netip.MustParseAddr(ipStr); a.Is6() && !a.Is4In6() && !isNonGlobal(a) {
+			v6global[ipStr] = true
+		}
+		switch op.Kind {
+		case "tcp":
+			conn := kit.NewMemConn(nil, &net.TCPAddr{IP: ip, Port: 50000 + i})
+			conn.Local = &net.TCPAddr{IP: net.IPv4(198, 18, 0, 1), Port: 443}
+			cm := sm.AddOpenTCPConnection(conn)
+			wantOpened[l]++
+			if op.Auth {
+				cm.AddAuthenticated("key")
+				wantTunnel[l] = true
+			}
+			cm.AddClosed("OK", metrics.ProxyMetrics{ClientProxy: 10, ProxyClient: 10}, time.Millisecond)
+		case "udp":
+			um := sm.AddUDPNatEntry(&net.UDPAddr{IP: ip, Port: 50000 + i}, "key")
+			um.AddPacketFromClient("OK", 20, 10)
+			wantPkts[l]++
+			wantTunnel[l] = true
+			um.RemoveNatEntry()
+		}
+	}
+	mfs, err := reg.Gather()
+	if err != nil {
+		return kit.Violation("expo:gather-error", "%v", err)
+	}
+	gotOpened, gotPkts, gotTunnel := map[string]float64{}, map[string]float64{}, map[string]bool{}
+	for _, mf := range mfs {
+		for _, m := range mf.GetMetric() {
+			l := map[string]string{}
+			for _, lp := range m.GetLabel() {
+				l[lp.GetName()] = lp.GetValue()
+			}
+			key := fmt.Sprintf("location=%q asn=%q", l["location"], l["asn"])
+			switch mf.GetName() {
+			case "tcp_connections_opened":
+				gotOpened[key] += m.GetCounter().GetValue()
+			case "udp_packets_from_client_per_location":
+				gotPkts[key] += m.GetCounter().GetValue()
+			case "tunnel_time_seconds_per_location":
+				gotTunnel[key] = true
+			}
+		}
+	}
+	cmp := func(name string, want, got map[string]float64) *kit.Finding {
+		for k, v := range want {
+			if got[k] != v {
+				return kit.Violation("expo:label-depends-on-history", "%s: %v connections/packets came from clients whose class and database answer prescribe {%s}, the exposition counts %v there (all: want %v, got %v) — clients %v", name, v, k, got[k], want, got, c.Clients)
+			}
+		}
+		for k, v := range got {
+			if _, ok := want[k]; !ok && v != 0 {
+				return kit.Violation("expo:label-depends-on-history", "%s: %v counted under {%s}, which no client of this history maps to (want %v)", name, v, k, want)
+			}
+		}
+		return nil
+	}
+	if f := cmp("tcp_connections_opened", wantOpened, gotOpened); f != nil {
+		return f
+	}
+	if f := cmp("udp_packets_from_client_per_location", wantPkts, gotPkts); f != nil {
+		return f
+	}
+	for k := range wantTunnel {
+		if !gotTunnel[k] {
+			return kit.Violation("expo:label-depends-on-history", "tunnel_time_seconds_per_location has no series {%s} although a client of that location had a tunnel (has %v)", k, gotTunnel)
+		}
+	}
+	for k := range gotTunnel {
+		if !wantTunnel[k] {
+			return kit.Violation("expo:label-depends-on-history", "tunnel_time_seconds_per_location has a series {%s} that no client with a tunnel maps to (want %v)", k, wantTunnel)
+		}
+	}
+	info.NonTrivial = len(v6global) >= 2 || len(wantOpened)+len(wantPkts) >= 3
+	if len(v6global) >= 2 {
+		info.Class("two-global-ipv6-clients")
+	}
+	return nil
+}
+
+func TestC20_Multi(t *testing.T) {
+	p := kit.Prop[C20Multi]{ID: "C20", Name: "Multi", Quick: 8000, Thorough: 400000, Gen: genC20Multi, Run: runC20Multi}
+	p.Execute(t)
+}
